@@ -160,5 +160,14 @@ func main() {
 	b.WriteString("\nend Yae.Gen\n")
 	writeIfChanged(filepath.Join(dir, "Consts.lean"), b.String())
 
-	writeIfChanged(filepath.Join(dir, "Shared.lean"), sharedLean("/repo"))
+	writeIfChanged(filepath.Join(dir, "Shared.lean"), sharedLean(repoRoot()))
+}
+
+// repoRoot: /repo for every registered command; VERIF_REPO is set only by the mutation drill
+// (bin/iso-seed), whose private harness copy is built against a scratch worktree.
+func repoRoot() string {
+	if r := os.Getenv("VERIF_REPO"); r != "" {
+		return r
+	}
+	return "/repo"
 }
